@@ -57,25 +57,27 @@ Definition ostr_eqb (a b : option str) : bool :=
 Definition nonneg_chars (s : str) : bool := forallb (fun c => 0 <=? c) s.
 
 (* ---------- known classes ---------- *)
-Definition K_LENGTH_BYTES := 1.   Definition K_SUBSTR_NULL := 2.    Definition K_SUBSTR_START := 3.
-Definition K_SUBSTR_NEGLEN := 4.  Definition K_CONCAT_NULL := 5.    Definition K_STRPOS_BYTES := 6.
+(* ids 1 (length-bytes), 6 (strpos-bytes), 17 (soundex-vowel), 18 (translate-drop), 20 (hex-lowercase),
+   28 (shift-ge64), 29 (shift-wrap32), 31 (dow-sunday) were repaired in the engine (fix: commits 3767e33
+   1657caf 584cd34 e4bd2bb e21b72e 08c65d9 0d7bffe) and no longer exist; 36 is what is left of the shifts *)
+Definition K_SUBSTR_NULL := 2.    Definition K_SUBSTR_START := 3.
+Definition K_SUBSTR_NEGLEN := 4.  Definition K_CONCAT_NULL := 5.
 Definition K_PAD_NULL := 7.       Definition K_PAD_EMPTY := 8.      Definition K_PAD_ROW0 := 9.
 Definition K_SPLIT_NULL := 10.    Definition K_SPLIT_OOR := 11.     Definition K_SPLIT_NONPOS := 12.
 Definition K_SPLIT_EMPTYDELIM := 13. Definition K_CHR_INVALID := 14. Definition K_COUNT_NULL := 15.
-Definition K_HAMMING_LEN := 16.   Definition K_SOUNDEX_VOWEL := 17. Definition K_TRANSLATE_DROP := 18.
-Definition K_LUHN_NONDIGIT := 19. Definition K_HEX_LOWER := 20.     Definition K_DECODE_INVALID := 21.
+Definition K_HAMMING_LEN := 16.
+Definition K_LUHN_NONDIGIT := 19. Definition K_DECODE_INVALID := 21.
 Definition K_URLENC_CHARS := 22.  Definition K_URLDEC_PLUS := 23.   Definition K_URLDEC_INVALID := 24.
 Definition K_TOBASE_RADIX := 25.  Definition K_TOBASE_NEG := 26.    Definition K_BASE_ROW0 := 27.
-Definition K_SHIFT_GE64 := 28.    Definition K_SHIFT_WRAP32 := 29.  Definition K_BITCOUNT_BITS := 30.
-Definition K_DOW_SUNDAY := 31.    Definition K_DATEDIFF_PARTIAL := 32. Definition K_DATEADD_NULL := 33.
-Definition K_DATE_UNIT := 34.     Definition K_GREATEST_NULL := 35.
+Definition K_BITCOUNT_BITS := 30.
+Definition K_DATEDIFF_PARTIAL := 32. Definition K_DATEADD_NULL := 33.
+Definition K_DATE_UNIT := 34.     Definition K_GREATEST_NULL := 35. Definition K_SHIFT_NEGATIVE := 36.
 
 (* ================= strings ================= *)
 
-(* LENGTH: s.len() — bytes; Trino: code points *)
-Definition m_length (s : option str) : res := match s with None => RNull | Some l => RInt (blen l) end.
+(* LENGTH: s.chars().count() — code points, as documented (was str::len() before fix 3767e33) *)
+Definition m_length (s : option str) : res := match s with None => RNull | Some l => RInt (zlen l) end.
 Definition s_length (s : option str) : option res := Some (match s with None => RNull | Some l => RInt (zlen l) end).
-Definition k_length (s : option str) : Z := if is_ascii (gs s) then 0 else K_LENGTH_BYTES.
 
 (* SUBSTRING(s, start [, len]).  cp = the "constant start/len" kernel path is eligible
    (literal arguments or a one-row batch); ln = None: two-argument form, Some None: NULL length *)
@@ -154,11 +156,12 @@ Definition m_concat_ws (sep : option str) (args : list (option str)) : res :=
   match sep with None => RNull | Some sp => RStr (join sp (somes args)) end.
 Definition s_concat_ws (sep : option str) (args : list (option str)) : option res := Some (m_concat_ws sep args).
 
-(* POSITION / STRPOS: str::find gives a BYTE offset; Trino: code point index *)
+(* POSITION / STRPOS: s[..pos].chars().count() + 1 for the byte offset pos of str::find (fix 1657caf):
+   the code point index, as documented *)
 Definition find_str (sub s : str) : option nat := match sub with [] => Some 0%nat | _ => find_sub sub s end.
 Definition m_strpos (s sub : option str) : res :=
   match s, sub with
-  | Some l, Some p => RInt (match find_str p l with Some i => blen (firstn i l) + 1 | None => 0 end)
+  | Some l, Some p => RInt (match find_str p l with Some i => zlen (firstn i l) + 1 | None => 0 end)
   | _, _ => RNull
   end.
 Definition s_strpos (s sub : option str) : option res :=
@@ -166,7 +169,6 @@ Definition s_strpos (s sub : option str) : option res :=
         | Some l, Some p => RInt (match find_str p l with Some i => Z.of_nat i + 1 | None => 0 end)
         | _, _ => RNull
         end).
-Definition k_strpos (s sub : option str) : Z := if is_ascii (gs s) then 0 else K_STRPOS_BYTES.
 
 Definition m_reverse (s : option str) : res := match s with None => RNull | Some l => RStr (rev l) end.
 Definition s_reverse (s : option str) : option res := Some (m_reverse s).
@@ -358,9 +360,9 @@ Definition m_levenshtein (a b : option str) : res :=
 Definition s_levenshtein (a b : option str) : option res :=
   Some (match a, b with Some x, Some y => RInt (lev_spec x y) | _, _ => RNull end).
 
-(* SOUNDEX (ASCII input).  Engine: vowels, H, W and every other code-0 character are transparent
-   (prev_code survives them).  Spec: American Soundex as in commons-codec US_ENGLISH (used by
-   Trino): H and W are transparent, every other letter resets the previous code. *)
+(* SOUNDEX (ASCII input).  Engine (after fix 584cd34): prev_code is updated by every character except
+   H and W.  Spec: American Soundex as in commons-codec US_ENGLISH (used by Trino): H and W are
+   transparent, every other letter resets the previous code. *)
 Definition to_upper (c : Z) : Z := if (97 <=? c) && (c <=? 122) then c - 32 else c.
 Definition is_letter (c : Z) : bool := ((65 <=? c) && (c <=? 90)) || ((97 <=? c) && (c <=? 122)).
 Definition sx_code (c : Z) : Z :=
@@ -379,7 +381,7 @@ Fixpoint sx_eng (prev : Z) (out rest : str) : str :=
       let code := sx_code c in
       let out' := if negb (code =? 0) && negb (code =? prev) then out ++ [48 + code] else out in
       if negb (code =? 0) && negb (code =? prev) && (4 <=? zlen out') then out'
-      else sx_eng (if code =? 0 then prev else code) out' r
+      else sx_eng (if (c =? 72) || (c =? 87) then prev else code) out' r
   end.
 Definition soundex_eng (s : str) : str :=
   match map to_upper s with
@@ -399,30 +401,15 @@ Definition soundex_std (s : str) : str :=
   | [] => []
   | c :: r => pad4 (c :: firstn 3 (sx_std (sx_code c) r))
   end.
-(* shape: two letters with the same non-zero code separated only by code-0 characters of which at
-   least one is not H/W *)
-Fixpoint sx_known (prev : Z) (seen : bool) (rest : str) : bool :=
-  match rest with
-  | [] => false
-  | c :: r =>
-      let code := sx_code c in
-      if code =? 0 then sx_known prev (seen || negb ((c =? 72) || (c =? 87))) r
-      else if (code =? prev) && seen then true else sx_known code false r
-  end.
 Definition m_soundex (s : option str) : res := match s with None => RNull | Some l => RStr (soundex_eng l) end.
 Definition s_soundex (s : option str) : option res :=
   match s with
   | None => Some RNull
   | Some l => if forallb is_letter l then Some (RStr (soundex_std l)) else None
   end.
-Definition k_soundex (s : option str) : Z :=
-  match map to_upper (gs s) with
-  | [] => 0
-  | c :: r => if sx_known (sx_code c) false r then K_SOUNDEX_VOWEL else 0
-  end.
 
-(* TRANSLATE: a source character whose match in `from` has no counterpart in `to` is KEPT
-   (Trino: omitted) *)
+(* TRANSLATE: a source character whose match in `from` has no counterpart in `to` is omitted
+   (filter_map, fix e4bd2bb), as documented; tr_eng is the pre-fix behaviour, kept for the regression theorem *)
 Fixpoint index_of (c : Z) (l : str) (i : nat) : option nat :=
   match l with [] => None | x :: r => if x =? c then Some i else index_of c r (S i) end.
 Definition tr_eng (from to : str) (c : Z) : str :=
@@ -436,19 +423,9 @@ Definition tr_std (from to : str) (c : Z) : str :=
   | None => [c]
   end.
 Definition m_translate (s f t : option str) : res :=
-  match s, f, t with Some l, Some fr, Some tl => RStr (flat_map (tr_eng fr tl) l) | _, _, _ => RNull end.
+  match s, f, t with Some l, Some fr, Some tl => RStr (flat_map (tr_std fr tl) l) | _, _, _ => RNull end.
 Definition s_translate (s f t : option str) : option res :=
   Some (match s, f, t with Some l, Some fr, Some tl => RStr (flat_map (tr_std fr tl) l) | _, _, _ => RNull end).
-Definition tr_drops (from to : str) (c : Z) : bool :=
-  match index_of c from 0 with
-  | Some p => match nth_error to p with Some _ => false | None => true end
-  | None => false
-  end.
-Definition k_translate (s f t : option str) : Z :=
-  match s, f, t with
-  | Some l, Some fr, Some tl => if existsb (tr_drops fr tl) l then K_TRANSLATE_DROP else 0
-  | _, _, _ => 0
-  end.
 
 (* LUHN_CHECK: non-digits are filtered out (Trino: error); "" => false *)
 Definition luhn_digits (s : str) : list Z := map (fun c => c - 48) (filter is_digit s).
@@ -495,12 +472,10 @@ Fixpoint dec_hex (s : str) : option (list Z) :=
                    end
   | _ => None
   end.
-Definition m_to_hex (b : option (list Z)) : res := match b with None => RNull | Some l => RStr (enc_hex false l) end.
+Definition m_to_hex (b : option (list Z)) : res := match b with None => RNull | Some l => RStr (enc_hex true l) end.
+   (* hex::encode_upper since fix e21b72e *)
 Definition s_to_hex (b : option (list Z)) : option res :=
   Some (match b with None => RNull | Some l => RStr (enc_hex true l) end).
-Definition k_to_hex (b : option (list Z)) : Z :=
-  if existsb (fun x => (10 <=? x / 16) || (10 <=? x mod 16)) (match b with Some l => l | None => [] end)
-  then K_HEX_LOWER else 0.
 Definition m_from_hex (s : option str) : res :=
   match s with None => RNull | Some l => match dec_hex l with Some b => RStr b | None => RNull end end.
 Definition s_from_hex (s : option str) : option res :=
@@ -806,35 +781,26 @@ Definition k_bit_count (x bits : option Z) : Z :=
   | _, _ => 0
   end.
 
-(* shifts: `x << (s as u32)`: the amount wraps mod 2^32, an amount >= 64 panics under
-   overflow-checks (debug profile, as the harness is built); release builds mask to 6 bits *)
-Definition sh_amount (s : Z) : Z := s mod two32.
+(* shifts (after fix 08c65d9): `if (0..64).contains(&s) { x << (s as u32) } else { 0 }` (arithmetic right
+   shift: -1 for a negative x).  Trino: the same for s >= 64, an error for a negative s. *)
+Definition shift_in_range (kind a k : Z) : Z :=
+  if kind =? 0 then to_i64 (to_u64 a * 2 ^ k) else if kind =? 1 then to_i64 (to_u64 a / 2 ^ k) else a / 2 ^ k.
+Definition shift_saturated (kind a : Z) : Z := if kind =? 2 then (if a <? 0 then -1 else 0) else 0.
 Definition m_shift (kind : Z) (x s : option Z) : res :=   (* 0 left, 1 right logical, 2 right arithmetic *)
   match x, s with
-  | Some a, Some sv =>
-      let k := sh_amount sv in
-      if 64 <=? k then RErr
-      else RInt (if kind =? 0 then to_i64 (to_u64 a * 2 ^ k)
-                 else if kind =? 1 then to_i64 (to_u64 a / 2 ^ k)
-                 else a / 2 ^ k)
+  | Some a, Some sv => RInt (if (0 <=? sv) && (sv <? 64) then shift_in_range kind a sv else shift_saturated kind a)
   | _, _ => RNull
   end.
 Definition s_shift (kind : Z) (x s : option Z) : option res :=
   Some (match x, s with
         | Some a, Some sv =>
             if sv <? 0 then RErr
-            else if 64 <=? sv then RInt (if kind =? 2 then (if a <? 0 then -1 else 0) else 0)
-            else RInt (if kind =? 0 then to_i64 (to_u64 a * 2 ^ sv)
-                       else if kind =? 1 then to_i64 (to_u64 a / 2 ^ sv)
-                       else a / 2 ^ sv)
+            else if 64 <=? sv then RInt (shift_saturated kind a)
+            else RInt (shift_in_range kind a sv)
         | _, _ => RNull
         end).
 Definition k_shift (x s : option Z) : Z :=
-  match x, s with
-  | Some _, Some sv => if 64 <=? sv then K_SHIFT_GE64
-                       else if (sv <? 0) && (sh_amount sv <? 64) then K_SHIFT_WRAP32 else 0
-  | _, _ => 0
-  end.
+  match x, s with Some _, Some sv => if sv <? 0 then K_SHIFT_NEGATIVE else 0 | _, _ => 0 end.
 
 (* ================= dates: days since 1970-01-01, proleptic Gregorian =================
    The engine delegates to chrono::NaiveDate; the functions below are the specification
@@ -867,7 +833,7 @@ Definition d_day (z : Z) : Z := let '(_, _, d) := civil_from_days z in d.
 Definition d_quarter (z : Z) : Z := (d_month z - 1) / 3 + 1.
 Definition d_doy (z : Z) : Z := z - days_from_civil (d_year z) 1 1 + 1.
 Definition d_dow_iso (z : Z) : Z := (z + 3) mod 7 + 1.        (* Monday = 1 .. Sunday = 7 *)
-Definition d_dow_sun (z : Z) : Z := (z + 4) mod 7 + 1.        (* Sunday = 1 .. Saturday = 7 *)
+Definition d_dow_sun (z : Z) : Z := (z + 4) mod 7 + 1.        (* Sunday = 1 .. Saturday = 7: the pre-fix numbering *)
 Definition pweek (y : Z) : Z := (y + y / 4 - y / 100 + y / 400) mod 7.
 Definition weeks_in_year (y : Z) : Z := if (pweek y =? 4) || (pweek (y - 1) =? 3) then 53 else 52.
 Definition d_week (z : Z) : Z :=
@@ -887,9 +853,8 @@ Definition date_ok (z : Z) : bool := (-719162 <=? z) && (z <=? 2932896).
 Definition dfun (f : Z -> Z) (d : option Z) : res := match d with Some z => RInt (f z) | None => RNull end.
 Definition sdfun (f : Z -> Z) (d : option Z) : option res :=
   match d with Some z => if date_ok z then Some (RInt (f z)) else None | None => Some RNull end.
-Definition m_day_of_week := dfun d_dow_sun.
+Definition m_day_of_week := dfun d_dow_iso.       (* num_days_from_monday() + 1 since fix 0d7bffe *)
 Definition s_day_of_week := sdfun d_dow_iso.
-Definition k_day_of_week (d : option Z) : Z := if is_none d then 0 else K_DOW_SUNDAY.
 
 (* units: 0 day, 1 week, 2 month, 3 quarter, 4 year, 5 anything else *)
 Definition trunc_days (u z : Z) : option Z :=
@@ -1024,8 +989,6 @@ Definition res_bits (r : res) (P : Z -> Prop) : Prop := match r with RInt v => P
    witness K m s k: the argument shape is classified K and the engine model's value is not the documented one *)
 Definition witness (K : Z) (m : res) (s : option res) (k : Z) : bool := (k =? K) && negb (spec_ok s m).
 Definition dev_witnesses : list bool := [
-  (* length('é') = 2, documented 1 *)
-  witness K_LENGTH_BYTES (m_length (Some [233])) (s_length (Some [233])) (k_length (Some [233]));
   (* substr(NULL string column, 1) = '' ; substr('abc', NULL) = 'abc' *)
   witness K_SUBSTR_NULL (m_substr false None (Some 1) None) (s_substr None (Some 1) None) (k_substr false None (Some 1) None);
   witness K_SUBSTR_NULL (m_substr true (Some [97;98;99]) None None) (s_substr (Some [97;98;99]) None None) (k_substr true (Some [97;98;99]) None None);
@@ -1036,8 +999,6 @@ Definition dev_witnesses : list bool := [
   witness K_SUBSTR_NEGLEN (m_substr true (Some [97;98;99]) (Some 1) (Some (Some (-1)))) (s_substr (Some [97;98;99]) (Some 1) (Some (Some (-1)))) (k_substr true (Some [97;98;99]) (Some 1) (Some (Some (-1))));
   (* concat('a', NULL) = 'a', documented NULL *)
   witness K_CONCAT_NULL (m_concat [Some [97]; None]) (s_concat [Some [97]; None]) (k_concat [Some [97]; None]);
-  (* strpos('éa', 'a') = 3, documented 2 *)
-  witness K_STRPOS_BYTES (m_strpos (Some [233;97]) (Some [97])) (s_strpos (Some [233;97]) (Some [97])) (k_strpos (Some [233;97]) (Some [97]));
   (* lpad('a', NULL, 'x') = '', documented NULL *)
   witness K_PAD_NULL (m_pad true (Some [97]) None (Some [120])) (s_pad true (Some [97]) None (Some [120])) (k_pad (Some [97]) None (Some [120]) (Some [120]));
   (* lpad('a', 3, '') = 'a', documented error *)
@@ -1060,14 +1021,8 @@ Definition dev_witnesses : list bool := [
   (* hamming_distance('a', 'ab') = NULL, documented error; hamming_distance('é', 'a') = NULL, documented 1 *)
   witness K_HAMMING_LEN (m_hamming (Some [97]) (Some [97;98])) (s_hamming (Some [97]) (Some [97;98])) (k_hamming (Some [97]) (Some [97;98]));
   witness K_HAMMING_LEN (m_hamming (Some [233]) (Some [97])) (s_hamming (Some [233]) (Some [97])) (k_hamming (Some [233]) (Some [97]));
-  (* soundex('Bab') = 'B000', documented 'B100' *)
-  witness K_SOUNDEX_VOWEL (m_soundex (Some [66;97;98])) (s_soundex (Some [66;97;98])) (k_soundex (Some [66;97;98]));
-  (* translate('ab', 'ab', 'x') = 'xb', documented 'x' *)
-  witness K_TRANSLATE_DROP (m_translate (Some [97;98]) (Some [97;98]) (Some [120])) (s_translate (Some [97;98]) (Some [97;98]) (Some [120])) (k_translate (Some [97;98]) (Some [97;98]) (Some [120]));
   (* luhn_check('0a') = true, documented error *)
   witness K_LUHN_NONDIGIT (m_luhn (Some [48;97])) (s_luhn (Some [48;97])) (k_luhn (Some [48;97]));
-  (* to_hex(x'ff') = 'ff', documented 'FF' *)
-  witness K_HEX_LOWER (m_to_hex (Some [255])) (s_to_hex (Some [255])) (k_to_hex (Some [255]));
   (* from_hex('z') = NULL, documented error; from_base('', 10) = NULL, documented error *)
   witness K_DECODE_INVALID (m_from_hex (Some [122])) (s_from_hex (Some [122])) (k_from_hex (Some [122]));
   witness K_DECODE_INVALID (m_from_base (Some []) (Some 10)) (s_from_base (Some []) (Some 10)) (k_from_base (Some []) (Some 10) (Some 10));
@@ -1084,14 +1039,11 @@ Definition dev_witnesses : list bool := [
   witness K_TOBASE_NEG (m_to_base (Some (-1)) (Some 16)) (s_to_base (Some (-1)) (Some 16)) (k_to_base (Some (-1)) (Some 16) (Some 16));
   (* to_base(255, r) on a row with r = 16 when row 0 has r = 2: '11111111', documented 'ff' *)
   witness K_BASE_ROW0 (m_to_base (Some 255) (Some 2)) (s_to_base (Some 255) (Some 16)) (k_to_base (Some 255) (Some 16) (Some 2));
-  (* bitwise_left_shift(1, 64): panic (debug) / 1 (release), documented 0 *)
-  witness K_SHIFT_GE64 (m_shift 0 (Some 1) (Some 64)) (s_shift 0 (Some 1) (Some 64)) (k_shift (Some 1) (Some 64));
-  (* bitwise_left_shift(1, -4294967295) = 2, documented error *)
-  witness K_SHIFT_WRAP32 (m_shift 0 (Some 1) (Some (-4294967295))) (s_shift 0 (Some 1) (Some (-4294967295))) (k_shift (Some 1) (Some (-4294967295)));
+  (* bitwise_left_shift(1, -1) = 0 and bitwise_right_shift_arithmetic(-8, -1) = -1, documented error (negative shift) *)
+  witness K_SHIFT_NEGATIVE (m_shift 0 (Some 1) (Some (-1))) (s_shift 0 (Some 1) (Some (-1))) (k_shift (Some 1) (Some (-1)));
+  witness K_SHIFT_NEGATIVE (m_shift 2 (Some (-8)) (Some (-1))) (s_shift 2 (Some (-8)) (Some (-1))) (k_shift (Some (-8)) (Some (-1)));
   (* bit_count(-1, 8) = 64, documented 8 *)
   witness K_BITCOUNT_BITS (m_bit_count (Some (-1)) (Some 8)) (s_bit_count (Some (-1)) (Some 8)) (k_bit_count (Some (-1)) (Some 8));
-  (* day_of_week(DATE '1970-01-01') = 5, documented 4 (Thursday) *)
-  witness K_DOW_SUNDAY (m_day_of_week (Some 0)) (s_day_of_week (Some 0)) (k_day_of_week (Some 0));
   (* date_diff('month', DATE '2024-01-31', DATE '2024-02-01') = 1, documented 0 *)
   witness K_DATEDIFF_PARTIAL (m_date_diff (Some 2) (Some 19753) (Some 19754)) (s_date_diff (Some 2) (Some 19753) (Some 19754)) (k_date_diff (Some 2) (Some 19753) (Some 19754));
   (* date_diff('year', DATE '2023-12-31', DATE '2024-01-01') = 1, documented 0 *)
@@ -1103,4 +1055,33 @@ Definition dev_witnesses : list bool := [
   witness K_DATE_UNIT (m_date_trunc (Some 5) (Some 0)) (s_date_trunc (Some 5) (Some 0)) (k_date_trunc (Some 5) (Some 0));
   (* greatest(NULL, 1) = 1, documented NULL *)
   witness K_GREATEST_NULL (m_extreme true [None; Some 1]) (s_extreme true [None; Some 1]) (k_extreme [None; Some 1])
+].
+
+(* ================= regressions: the witnesses of the eight repaired classes =================
+   fixed m s k: the arguments are in no known class and the model's value is the documented one *)
+Definition fixed (m : res) (s : option res) (k : Z) : bool := (k =? 0) && spec_ok s m && match s with Some _ => true | None => false end.
+Definition fixed_regressions : list bool := [
+  (* 3767e33: length('é') = 1 *)
+  fixed (m_length (Some [233])) (s_length (Some [233])) 0 && res_eqb (m_length (Some [233])) (RInt 1);
+  (* 1657caf: strpos('éa', 'a') = 2 *)
+  fixed (m_strpos (Some [233;97]) (Some [97])) (s_strpos (Some [233;97]) (Some [97])) 0 && res_eqb (m_strpos (Some [233;97]) (Some [97])) (RInt 2);
+  (* 584cd34: soundex('Bab') = 'B100', soundex('Tymczak') = 'T522' *)
+  fixed (m_soundex (Some [66;97;98])) (s_soundex (Some [66;97;98])) 0 && res_eqb (m_soundex (Some [66;97;98])) (RStr [66;49;48;48]);
+  fixed (m_soundex (Some [84;121;109;99;122;97;107])) (s_soundex (Some [84;121;109;99;122;97;107])) 0
+    && res_eqb (m_soundex (Some [84;121;109;99;122;97;107])) (RStr [84;53;50;50]);
+  (* e4bd2bb: translate('ab', 'ab', 'x') = 'x' *)
+  fixed (m_translate (Some [97;98]) (Some [97;98]) (Some [120])) (s_translate (Some [97;98]) (Some [97;98]) (Some [120])) 0
+    && res_eqb (m_translate (Some [97;98]) (Some [97;98]) (Some [120])) (RStr [120]);
+  (* e21b72e: to_hex(x'ff') = 'FF' *)
+  fixed (m_to_hex (Some [255])) (s_to_hex (Some [255])) 0 && res_eqb (m_to_hex (Some [255])) (RStr [70;70]);
+  (* 08c65d9: bitwise_left_shift(1, 64) = 0, bitwise_right_shift(-1, 64) = 0, bitwise_right_shift_arithmetic(-8, 64) = -1,
+     bitwise_left_shift(1, 4294967297) = 0 (no wrap modulo 2^32) *)
+  fixed (m_shift 0 (Some 1) (Some 64)) (s_shift 0 (Some 1) (Some 64)) (k_shift (Some 1) (Some 64)) && res_eqb (m_shift 0 (Some 1) (Some 64)) (RInt 0);
+  fixed (m_shift 1 (Some (-1)) (Some 64)) (s_shift 1 (Some (-1)) (Some 64)) (k_shift (Some (-1)) (Some 64)) && res_eqb (m_shift 1 (Some (-1)) (Some 64)) (RInt 0);
+  fixed (m_shift 2 (Some (-8)) (Some 64)) (s_shift 2 (Some (-8)) (Some 64)) (k_shift (Some (-8)) (Some 64)) && res_eqb (m_shift 2 (Some (-8)) (Some 64)) (RInt (-1));
+  fixed (m_shift 0 (Some 1) (Some 4294967297)) (s_shift 0 (Some 1) (Some 4294967297)) (k_shift (Some 1) (Some 4294967297))
+    && res_eqb (m_shift 0 (Some 1) (Some 4294967297)) (RInt 0);
+  (* 0d7bffe: day_of_week(DATE '1970-01-01') = 4 (Thursday), day_of_week(DATE '2024-01-07') = 7 (Sunday) *)
+  fixed (m_day_of_week (Some 0)) (s_day_of_week (Some 0)) 0 && res_eqb (m_day_of_week (Some 0)) (RInt 4);
+  fixed (m_day_of_week (Some 19729)) (s_day_of_week (Some 19729)) 0 && res_eqb (m_day_of_week (Some 19729)) (RInt 7)
 ].
